@@ -107,6 +107,10 @@ def run(tier):
             verdict.disagree(dict(base, what="program_behaviour_changed", after_evaluate=any(c.startswith("eval_") for c in row["cmds"])),
                              dict(case, sem={"out": sem["out"], "err": sem["err"]}))
             continue
+        if not sem["err"]["kind"] and sorted(res.get("names", [])) != sorted(n for n in sem["names"] if n not in ("emit",)):
+            verdict.disagree(dict(base, what="module_variables_changed", after_evaluate=any(c.startswith("eval_") for c in row["cmds"])),
+                             dict(case, expected_names=sorted(sem["names"]), observed_names=sorted(res.get("names", []))))
+            continue
         got = [s["line"] for s in r["stops"]]
         stops_total += len(got)
         if any(not e["as_expected"] for e in r.get("evals", [])):
